@@ -7,6 +7,8 @@ collide pairwise in every way the workspace can be confused by.
     A2  (ns1, a)  decision Who = "A2"    identical key to A (DESIGN's A'); different content so a replacement is observable
     D   (ns3, c)  decision Who = "D"     disjoint from all
     E   (ns4, d)  decision Who = 1 +     parses (dmntk_model::parse accepts it) but ModelEvaluator::new fails: FEEL syntax error
+    F   (ns3/, f) decision Who = "F"     its namespace differs from D's only by a trailing slash: keys are compared as given, so it
+                                         is a different namespace (a workspace that normalises keys in one place only drifts here)
 
 Every model has one decision `Who` without requirements whose value names the model text, so that evaluating
 (model name, "Who") tells which definitions are deployed under that name.
@@ -35,14 +37,15 @@ MODELS = {
     "A2": ("ns1", "a", True, "A2"),
     "D": ("ns3", "c", True, "D"),
     "E": ("ns4", "d", False, None),
+    "F": ("ns3/", "f", True, "F"),
 }
-TAGS = ["A", "B", "C", "A2", "D", "E"]          # simplest first
+TAGS = ["A", "B", "C", "A2", "D", "E", "F"]          # simplest first
 XML = {tag: model_xml(ns, name, '"%s"' % val if builds else "1 +") for tag, (ns, name, builds, val) in MODELS.items()}
 
-NAMESPACES = ["ns1", "ns2", "ns3", "ns4"]
-NAMES = ["a", "b", "c", "d"]
+NAMESPACES = ["ns1", "ns2", "ns3", "ns4", "ns3/"]
+NAMES = ["a", "b", "c", "d", "f"]
 # remove() arguments: the five model keys first, then the cross pairs, then a pair nobody has
-MODEL_KEYS = [("ns1", "a"), ("ns1", "b"), ("ns2", "a"), ("ns3", "c"), ("ns4", "d")]
+MODEL_KEYS = [("ns1", "a"), ("ns1", "b"), ("ns2", "a"), ("ns3", "c"), ("ns4", "d"), ("ns3/", "f")]
 CROSS_KEYS = [(ns, nm) for ns in NAMESPACES for nm in NAMES if (ns, nm) not in MODEL_KEYS]
 REMOVE_KEYS = MODEL_KEYS + CROSS_KEYS + [("nsX", "x")]
 EVAL_NAMES = NAMES + ["x"]
